@@ -285,6 +285,10 @@ pub enum BuilderContent {
 #[derive(Serialize, Deserialize, Clone, Debug, PartialEq, Eq, Hash)]
 pub enum Edit {
     Push(String, String),
+    /// push_attribute((key, Cow::Owned(value)))
+    PushOwned(String, String),
+    /// push_attribute((key, Cow::Borrowed(value)))
+    PushCowBorrowed(String, String),
     Extend(Vec<(String, String)>),
     With(Vec<(String, String)>),
     SetName(String),
